@@ -5,7 +5,7 @@ cd "$(dirname "$0")"
 export CARGO_NET_OFFLINE=true
 mkdir -p .work evidence/replays
 [ -f harness/Cargo.lock ] || cp /repo/Cargo.lock harness/Cargo.lock
-(cd harness && cargo build --release --offline -q) || { cp /repo/Cargo.lock harness/Cargo.lock; (cd harness && cargo build --release --offline -q); }
+(cd harness && cargo build --release --offline -q --workspace) || { cp /repo/Cargo.lock harness/Cargo.lock; (cd harness && cargo build --release --offline -q --workspace); }
 mkdir -p coq/Generated
 sh coq/gen_project.sh
 (cd coq && timeout 3000 make -j16)
